@@ -43,6 +43,9 @@ class ConcreteOps:
     def ge(self, a, b):
         a, b = self.num(a), self.num(b)
         return a >= b - self.RTOL * max(1.0, abs(a), abs(b))
+    def close(self, a, b, tol=1e-9):
+        a, b = self.num(a), self.num(b)
+        return abs(a - b) <= 10 * tol * (1 + abs(b))
     def le(self, a, b): return self.ge(b, a)
     def gt(self, a, b): return self.num(a) > self.num(b)
     def abs(self, a): return abs(a)
@@ -75,6 +78,8 @@ class ConcreteOps:
     def arr(self, items):
         import numpy
         return numpy.array([float(x) for x in items])
+    def lit(self, x):
+        return str(int(x)) if float(x) == int(x) else repr(float(x))
 '''
 _ns = {}
 exec(CONCRETE_OPS_SRC, _ns)
@@ -85,9 +90,11 @@ ConcreteOps = _ns['ConcreteOps']
 class Claim:
     """z3 Bool plus an optional 'robust' negation used to pick replayable models."""
 
-    def __init__(self, t, robust_neg=None):
+    def __init__(self, t, robust_neg=None, parts=None, nonlinear=False):
         self.t = t
         self.robust_neg = robust_neg
+        self.parts = parts          # optional list of z3 Bools whose conjunction is t (proved one by one)
+        self.nonlinear = nonlinear
 
 
 def _abs(t):
@@ -113,6 +120,13 @@ class SymOps:
     def ge(self, a, b):
         at, bt = self._l(a), self._l(b)
         return Claim(at >= bt, bt - at > z3.RealVal('1/1000') * (1 + _abs(bt)))
+
+    def close(self, a, b, tol=1e-9):
+        """|a-b| <= tol*(1+b) for a reference b known to be >= 0; posed as two abs-free polynomial queries (nlsat)"""
+        at, bt = self._l(a), self._l(b)
+        eps = z3.RealVal(repr(tol)) * (1 + bt)
+        p1, p2 = at - bt <= eps, bt - at <= eps
+        return Claim(z3.And(p1, p2), z3.Or(at - bt > 1000 * eps, bt - at > 1000 * eps), parts=[p1, p2], nonlinear=True)
 
     def le(self, a, b):
         return self.ge(b, a)
@@ -208,6 +222,18 @@ class SymOps:
     def arr(self, items):
         return core.symarr(list(items))
 
+    def lit(self, x):
+        """numeric literal text for x: a sentinel numeral that the module-local float/int stubs map back to the proxy"""
+        if not core.is_sym(x):
+            return str(int(x)) if float(x) == int(x) else repr(float(x))
+        from symx import stubs
+        for text, p in stubs.SENTINELS.items():
+            if p is x:
+                return text
+        text = str(9001 + len(stubs.SENTINELS))
+        stubs.sentinel(text, x)
+        return text
+
 
 # ---------------------------------------------------------------------------
 
@@ -243,6 +269,8 @@ class Scenario:
 def _to_py(val, kind):
     if kind == 'int':
         return int(val)
+    if kind == 'count':
+        return max(1, int(round(float(val))))
     if kind == 'bool':
         return bool(val)
     if isinstance(val, fractions.Fraction):
@@ -280,12 +308,17 @@ def run_scenarios(scens, patches_cm, timeout_ms=10000, max_paths=4000, wall_s=12
     for scen in scens:
         _t0 = time.time()
         out['shapes'] += 1
+        from symx import stubs as _stubs
+        _stubs.clear_sentinels()
         run = scen.compile()
         eng = Engine(timeout_ms=timeout_ms, max_paths=max_paths, wall_s=wall_s, div_zero=div_zero)
         vars_ = {}
         for name, kind in scen.inputs.items():
             if kind == 'real':
                 vars_[name] = SymReal(z3.Real(name))
+            elif kind == 'count':
+                vars_[name] = SymReal(z3.Real(name))
+                eng.assume_global(z3.Real(name) >= 1)
             elif kind == 'int':
                 vars_[name] = SymInt(z3.Int(name))
             else:
@@ -334,14 +367,31 @@ def run_scenarios(scens, patches_cm, timeout_ms=10000, max_paths=4000, wall_s=12
                         if isinstance(claim, SymBool):
                             claim = Claim(claim.t)
                         ax = list(ax0) + axioms.instances(list(pc) + [claim.t] + list(ax0), product_rule=scen.product_rule)
-                        r, m = eng.prove(pc, claim.t, extra=ax)
+                        if claim.parts:
+                            r, m = 'unsat', None
+                            for part in claim.parts:
+                                r1, m1 = eng.prove(pc, part, extra=ax, nonlinear=claim.nonlinear)
+                                if r1 != 'unsat':
+                                    r, m = r1, m1
+                                    break
+                        else:
+                            r, m = eng.prove(pc, claim.t, extra=ax, nonlinear=claim.nonlinear)
                         if r == 'unsat':
                             out['discharged'] += 1
                         elif r == 'sat':
+                            cnts = [vars_[n].t for n, k in scen.inputs.items() if k == 'count']
+                            dom = [z3.Or(*[c == i for i in range(1, 9)]) for c in cnts]
+                            tries = []
                             if claim.robust_neg is not None:
-                                r2, m2 = eng.satisfiable(pc, extra=list(ax) + [claim.robust_neg])
+                                tries.append(dom + [claim.robust_neg])
+                                tries.append([claim.robust_neg])
+                            if dom:
+                                tries.append(dom + [z3.Not(claim.t)])
+                            for extra_c in tries:
+                                r2, m2 = eng.satisfiable(pc, extra=list(ax) + extra_c)
                                 if r2 == 'sat':
                                     m = m2
+                                    break
                             _report(out, scen, vars_, m, label, reported, 'solver counterexample')
                             out['discharged'] += 1
                         else:
@@ -408,6 +458,8 @@ def _sample(scen, rnd, tries=60):
                 vals[name] = x
             elif kind == 'int':
                 vals[name] = rnd.randint(-3, 6)
+            elif kind == 'count':
+                vals[name] = rnd.randint(1, 5)
             else:
                 vals[name] = rnd.random() < 0.5
         v = V(**vals, **scen.consts)
